@@ -29,7 +29,7 @@ RULE = ("calendar: every hour of 2020 (leap) and 2021 in the listed timezones x 
 ASSUMPTIONS = ["an hour's month is its local calendar month in the index's timezone",
                "bin 0 is 'filled' with min(T, first endpoint) (it is unbounded below), the last bin with max(T - last endpoint, 0)"]
 REQUIRED_REACH = {"post.segment_time_series": 40, "post.bin_features": 64, "post.time_features": 10, "post.occupancy_feature": 10,
-                  "post.prediction_feature_processor": 90, "boundary.routing": 8, "boundary.routing_partial_model": 8, "clause.partition_rows": 100000,
+                  "post.prediction_feature_processor": 90, "boundary.routing": 16, "boundary.routing_partial_model": 8, "boundary.routing_month_in_two_runs": 8, "clause.partition_rows": 100000,
                   "clause.bin_cells": 10000, "clause.how_values_168": 1}
 REQUIRED_REACH_THOROUGH = {"post.fit_feature_processor": 12, "boundary.real_fit_routing": 1, "repo_tests.post.segment_time_series": 5, "repo_tests.post.bin_features": 5}
 ENDPOINTS = [30, 45, 55, 65, 75, 90]
@@ -274,12 +274,16 @@ def calendar_case(spec, keys):
     from opendsm.eemeter.common.features import compute_time_features
     rng = rng_for(spec["seed"], ID, 1, spec["zi"])
     tz = spec["tz"]
-    for year in (2020, 2021):
-        idx = pd.date_range(pd.Timestamp("%d-01-01" % year, tz=tz), pd.Timestamp("%d-01-01" % (year + 1), tz=tz), freq="h", inclusive="left")
+    # calendar years, a 365-day window that starts mid-month (March occurs in two separate runs) and a two-year window (every month twice)
+    for year, (w0, w1) in (("2020", ("2020-01-01", "2021-01-01")), ("2021", ("2021-01-01", "2022-01-01")),
+                           ("2020-03-15..2021-03-14", ("2020-03-15", "2021-03-15")), ("2020+2021", ("2020-01-01", "2022-01-01"))):
+        idx = pd.date_range(pd.Timestamp(w0, tz=tz), pd.Timestamp(w1, tz=tz), freq="h", inclusive="left")
+        if "-" in year or "+" in year:
+            I.reach("boundary.routing_month_in_two_runs")
         for st in ("single", "one_month", "three_month", "three_month_weighted"):
             segment_time_series(idx, st)
             segment_time_series(idx[: int(rng.integers(30, 4000))], st, drop_zero_weight_segments=True)
-            keys.add("cal|%s|%d|%s" % (tz, year, st))
+            keys.add("cal|%s|%s|%s" % (tz, year, st))
         compute_time_features(idx)
         # ---- routing through the real predict, hand-built model ------------------------------------------
         m = handbuilt(rng)
@@ -290,7 +294,7 @@ def calendar_case(spec, keys):
         f = local_fields(idx)
         y = p.to_numpy(dtype=float)
         if not p.index.equals(idx) or np.isnan(y).any():
-            add("routing-unpredicted-hour", "%d hours of %d in %s are predicted by no month model" % (int(np.isnan(y).sum()), year, tz), tz=tz)
+            add("routing-unpredicted-hour", "%d hours of %s in %s are predicted by no month model" % (int(np.isnan(y).sum()), year, tz), tz=tz)
         ok = ~np.isnan(y)
         r = np.round(y[ok] - T.to_numpy()[ok] / 1000.0)
         slot = (r // 1000).astype(int)
@@ -303,7 +307,7 @@ def calendar_case(spec, keys):
         frac = y[ok] - r
         if (np.abs(frac - T.to_numpy()[ok] / 1000.0) > 1e-9).any():
             add("routing-bin-sum", "bin features seen by the month model do not sum to the temperature", tz=tz)
-        keys.add("route|%s|%d" % (tz, year))
+        keys.add("route|%s|%s" % (tz, year))
         # ---- a model that holds only some month segments: the hours of a month without a model are predicted by nobody ----
         drop = set(int(x) for x in rng.choice(np.arange(1, 13), size=int(rng.integers(2, 6)), replace=False))
         m2 = handbuilt(rng, drop=drop)
